@@ -351,6 +351,32 @@ func main() {
 			idx = got
 		}
 	}
+	// DPoS v1 producer order: producers with exactly equal votes must come out in one fixed order
+	// (the key tie-break), however often it is evaluated.
+	{
+		for _, pr := range v2State.GetProducers() {
+			pr.SetVotes(100)
+		}
+		first := ""
+		for k := 0; k < 40; k++ {
+			ks := state.VerifSortedProducers(v2State, v2Params)
+			if len(ks) != 6 {
+				evid.Fatalf("harness: getSortedProducers returned %d producers, want 6", len(ks))
+			}
+			cur := strings.Join(ks, ",")
+			if k == 0 {
+				first = cur
+			} else if cur != first {
+				r.Violate("C24|producer-order-nondeterministic|getSortedProducers",
+					"the order of producers with equal votes differs between two sequential evaluations on the same state (it follows Go map iteration order)",
+					map[string]interface{}{"scenario": scen{Name: "sequential-repeat-sorted"}, "schedule": []int{}, "first": first, "other": cur})
+				break
+			}
+		}
+		for _, pr := range v2State.GetProducers() {
+			pr.SetVotes(0)
+		}
+	}
 	// CRC part of the next arbiter set: which configured node key serves which council member
 	// that has not claimed a node. Same committee, evaluated 40 times.
 	{
